@@ -376,11 +376,111 @@ def _shard(k):
     return acc
 
 
+def _unreadable_shard(_):
+    """Files the library cannot (or need not) read: whatever it answers - refusal or data - no access form may
+    change their bytes or leave a descriptor open.  Access forms: explicit context (plain, write-enabled), every
+    implicit reader with no context, twice in a row, and a reader after a refused explicit context."""
+    acc = core.Acc()
+    n = specs.lib()
+    d = env.scratch_dir("c08u")
+    good = R.build_file(3, [kdriver.known_record(R.T_EVENTS, 0), kdriver.opaque_record(1)])
+    unknown_kind = bytearray(good)
+    unknown_kind[R.HEADER + R.ENTRY: R.HEADER + R.ENTRY + 4] = (17).to_bytes(4, "little")     # a block kind beyond the enum
+    files = {
+        "not-a-tdf": b"this is not a TDF file, but it is somebody's data\n" * 3,
+        "empty": b"",
+        "signature-only": good[:16],
+        "cut-inside-table": good[:R.HEADER + R.ENTRY + 40],
+        "cut-inside-header": good[:40],
+        "unknown-block-kind": bytes(unknown_kind),
+        "slot-count-negative": good[:20] + (-3).to_bytes(4, "little", signed=True) + good[24:],
+    }
+    readers = ("blocks", "has_events", "events", "len", "repr", "getitem_0", "nBytes", "eq_self", "entries_attr")
+
+    def read(tdf, op):
+        if op == "len":
+            return len(tdf)
+        if op == "repr":
+            return repr(tdf)
+        if op == "getitem_0":
+            return tdf[0]
+        if op == "eq_self":
+            return tdf == tdf
+        if op == "entries_attr":
+            return list(getattr(tdf, "entries", []))
+        return getattr(tdf, op)
+
+    forms = [("with",), ("with-write",)] + [("reader", r) for r in readers] + [("reader-twice", r) for r in readers[:4]] + \
+            [("with-then-reader", r) for r in readers[:4]]
+    for fname, content in files.items():
+        for form in forms:
+            acc.n["states"] += 1
+            acc.n["evaluations"] += 1
+            acc.n["nontrivial"] += 1
+            acc.n["transitions"] += 1
+            path = os.path.join(d, "u.tdf")
+            with open(path, "wb") as f:
+                f.write(content)
+            wit = {"unreadable": [fname, list(form)]}
+            outcome = "data"
+            try:
+                tdf = n.tdf.Tdf(path)
+                try:
+                    with env.time_limit(10):
+                        if form[0] in ("with", "with-write", "with-then-reader"):
+                            if form[0] == "with-write":
+                                tdf.allow_write()
+                            try:
+                                with tdf as f:
+                                    len(f)
+                            except Exception:  # noqa: BLE001
+                                outcome = "refused"
+                                if form[0] != "with-then-reader":
+                                    raise
+                            if form[0] == "with-then-reader":
+                                read(tdf, form[1])
+                        else:
+                            for _ in range(2 if form[0] == "reader-twice" else 1):
+                                try:
+                                    read(tdf, form[1])
+                                except Exception:  # noqa: BLE001
+                                    outcome = "refused"
+                except Exception:  # noqa: BLE001
+                    outcome = "refused"
+            except Exception:  # noqa: BLE001
+                outcome = "refused-at-construction"
+            with open(path, "rb") as f:
+                after = f.read()
+            desc = f"{fname} file, access {' '.join(form)} ({outcome})"
+            if after != content:
+                acc.violation("reader-changed-file", f"{PROP}:unreadable:changed:{form[0]}", wit, f"{desc}: the file's bytes changed")
+            elif env.open_fds_on(path):
+                acc.violation("descriptor-left-open", f"{PROP}:unreadable:descriptor:{form[0]}", wit, f"{desc}: a descriptor on the file is still open")
+            else:
+                acc.outcomes[f"unreadable:{fname}:{outcome}"] += 1
+                acc.n["traces"] += 1
+            os.unlink(path)
+    acc.sample({"unreadable files": list(files), "access forms": [" ".join(f) for f in forms[:4]] + ["..."]}, 1)
+    return acc
+
+
+def _any_shard(k):
+    if k == "unreadable":
+        return _unreadable_shard(k)
+    return _shard(k)
+
+
 def run(tier):
-    return core.pmap(__name__, "_shard", list(range(NSLICE)))
+    return core.pmap(__name__, "_any_shard", ["unreadable"] + list(range(NSLICE)))
 
 
 def replay(w):
+    if w.get("unreadable"):
+        acc = _unreadable_shard(None)
+        for v in acc.violations:
+            if v["witness"] == w:
+                return core.Violation(v["clause"], v["sig"], w, v["detail"])
+        return None
     m = ModeMachine()
     impl = None
     try:
